@@ -61,7 +61,7 @@ let rec show_ty (b : Buffer.t) (t : ty) : unit =
   | TU bits -> add ("U" ^ dec_of_n bits) | TI -> add "I" | TBool -> add "B" | TText -> add "T" | TBytes -> add "Y"
   | TTime -> add "TIME" | TIdx -> add "IDX"
   | TArr e -> add "A( "; show_ty b e; add " )"
-  | TMap (sk, fs) ->
+  | TMap (sk, _, fs) ->
     add (if sk then "Ms(" else "Mu(");
     let rec go = function
       | FNil -> ()
